@@ -501,7 +501,7 @@ def gen_history(r, nsteps, devs, dist):
         k = r.random()
         cand = None
         kind = None
-        if len(vn) < 2 or k < 0.07:
+        if len(vn) < 2 or k < 0.04:
             ds, b = rand_shape(r)
             sh = mk_shape(ds, b)
             n = size(sh)
@@ -509,7 +509,9 @@ def gen_history(r, nsteps, devs, dist):
                 n += r.choice([-1, 1])
             cand, kind = "new %d %d %s %d %s" % (target(), r.choice(devs), dims_str(ds), b, rand_vals(r, max(n, 0))), 'new'
         elif k < 0.21:
-            y = r.choice(vn) if r.random() < 0.9 else any_name()
+            # copies of a FEW sources: sharing classes of size 2, 3 and more
+            hotsrc = [v for v in vn if v in hot]
+            y = (r.choice(hotsrc[:2]) if hotsrc and r.random() < 0.6 else r.choice(vn)) if r.random() < 0.9 else any_name()
             x = y if r.random() < 0.1 else target()
             cand, kind = "cp %d %d" % (x, y), ('cp-self' if x == y else 'cp')
         elif k < 0.27:
